@@ -98,12 +98,55 @@ def canon_key(name):
 # --------------------------------------------------------------------------------------------------------------------
 # contracts; each returns a list of (key, what)
 # --------------------------------------------------------------------------------------------------------------------
+def _reachable_ids(a):
+    ids = set()
+    for x in a:
+        ids.add(id(x))
+        if isinstance(x, (list, tuple)):
+            ids.update(id(y) for y in x)
+            ids.update(id(y.obj) for y in x if isinstance(y, memoryview))
+        if isinstance(x, memoryview):
+            ids.add(id(x.obj))
+    return ids
+
+
+def _scribble(r, keep):
+    """overwrite what a call returned (as a caller may): a new list gets a junk element, byte strings that the call created
+    (not the caller's own argument objects, whose ids are in `keep`) get their last byte flipped"""
+    if isinstance(r, tuple):
+        for y in r:
+            _scribble(y, keep)
+        return
+    if isinstance(r, list) and id(r) not in keep:
+        for y in r:
+            if isinstance(y, bytearray) and id(y) not in keep and len(y):
+                y[-1] ^= 0xFF
+            elif isinstance(y, memoryview) and not y.readonly and id(y.obj) not in keep and len(y):
+                y[-1] ^= 0xFF
+        r.append(b'\x08\x04junk')
+    elif isinstance(r, bytearray) and id(r) not in keep and len(r):
+        r[-1] ^= 0xFF
+
+
 def _call(fn, *a):
-    """run a library function; an exception is an outcome that the contract judges"""
+    """run a library function; an exception is an outcome that the contract judges.  The function is called TWICE with the same
+    arguments; what the first call returned is scribbled over in between and the result of the second call is the one that
+    is judged - a result cached and handed out again (shared mutable state between calls) shows as a wrong second answer."""
+    try:
+        first = fn(*a)
+    except Exception as e:
+        return ('exc', f'{type(e).__name__}: {e}'[:100])
+    try:
+        _scribble(first, _reachable_ids(a))
+    except Exception:   # noqa - read-only results cannot be scribbled
+        pass
     try:
         return ('ok', fn(*a))
     except Exception as e:
-        return ('exc', f'{type(e).__name__}: {e}'[:100])
+        return ('exc', f'second call with the same arguments: {type(e).__name__}: {e}'[:100])
+
+
+_RECV = bytearray(9000)          # one fixed receive buffer (never resized: views into it may be alive)
 
 
 def _bl(x):
@@ -171,6 +214,17 @@ def post_name(name):
         add('C09:name-encode-into-buffer', f'encode(list, buf, 2) -> {r[0]}, buffer {bytes(buf).hex()[:80]}')
     # ---- wire -> list
     expect('C09:name-from_bytes', _call(N.from_bytes, wire), comps, 'from_bytes(wire)')
+    # the same through ONE receive buffer that serves every name of this process (overwritten in place, as an application does)
+    prev = ref_wire(list(name) + [(8, b'previous packet')])
+    if len(prev) + 3 <= len(_RECV):
+        _RECV[3:3 + len(prev)] = prev
+        _call(N.decode, _RECV, 3)             # the buffer held another name a moment ago, and it was decoded from there
+        _RECV[3:3 + len(wire)] = wire
+        r = _call(N.decode, _RECV, 3)
+        if r[0] != 'ok' or _bl(r[1][0]) != comps or r[1][1] != len(wire):
+            add('C09:name-decode-reused-buffer', f'decode(reused receive buffer, 3) -> {r!r:.120}, expected the components of THIS name')
+        expect('C09:name-from_bytes-reused-buffer', _call(N.from_bytes, memoryview(_RECV)[3:3 + len(wire)]), comps,
+               'from_bytes(view of the reused buffer)')
     r = _call(N.decode, wire + b'\x15\x00', 0)
     if r[0] != 'ok' or _bl(r[1][0]) != comps or r[1][1] != len(wire):
         add('C09:name-decode', f'decode(wire+trailer) -> {r!r:.120}, expected components and consumed={len(wire)}')
